@@ -63,3 +63,101 @@ CFG["manifest"] = dict(
     technique="Lean 4 proof (structural induction over a schema DSL, omega/simp) + regenerated bridge obligations + byte-level differential "
               "correspondence through a recording packetEncoder/packetDecoder + round-trip oracle on the real code",
 )
+
+
+# ------------------------------------------------------------------------------------------------------------------
+# static tie (tools/skel): the skeletons of every encode/decode pair are re-extracted from the Go AST on every run
+# (Gen/C09Skel.lean), the obligations of Bridge/C09Skel.lean are regenerated and re-proved (kernel evaluation), and
+# Props/C09skel.lean turns every discharged `T_mirror` into the round-trip / sizing theorem of T at every version.
+# The names below are PINNED: a type that drops out of the recognised fragment after a source change loses its
+# obligation, which then counts as a missing required theorem.
+CFG["pregen"] = [["sh", "tools/skel/regen.sh", "{REPO}"]]
+CFG["lean_modules"] += ["SaramaVerif.Model.CodecSkel", "SaramaVerif.Props.C09skel", "SaramaVerif.Bridge.C09Skel"]
+CFG["lean_support"] += ["SaramaVerif.Gen.C09Skel"]
+_SKEL_MIRROR = """
+    AbortedTransaction Acl AclCreation AclCreationResponse AclFilter AddOffsetsToTxnRequest AddOffsetsToTxnResponse
+    AddPartitionsToTxnRequest AddPartitionsToTxnResponse AlterConfigsRequest AlterConfigsResource
+    AlterConfigsResourceResponse AlterConfigsResponse AlterPartitionReassignmentsRequest
+    AlterPartitionReassignmentsResponse AlterUserScramCredentialsRequest AlterUserScramCredentialsResponse
+    ApiVersionsRequest ApiVersionsResponse ApiVersionsResponseBlock Broker ConfigEntry ConfigSynonym
+    ConsumerGroupMemberAssignment ConsumerGroupMemberMetadata CreateAclsRequest CreateAclsResponse
+    CreatePartitionsRequest CreatePartitionsResponse CreateTopicsRequest CreateTopicsResponse DeleteAclsRequest
+    DeleteAclsResponse DeleteGroupsRequest DeleteGroupsResponse DeleteRecordsRequest DeleteRecordsRequestTopic
+    DeleteRecordsResponse DeleteRecordsResponsePartition DeleteRecordsResponseTopic DeleteTopicsRequest
+    DeleteTopicsResponse DescribeAclsRequest DescribeAclsResponse DescribeConfigsRequest DescribeConfigsResponse
+    DescribeGroupsRequest DescribeGroupsResponse DescribeLogDirsRequest DescribeLogDirsResponse
+    DescribeLogDirsResponseDirMetadata DescribeLogDirsResponsePartition DescribeLogDirsResponseTopic
+    DescribeUserScramCredentialsRequest DescribeUserScramCredentialsResponse EndTxnRequest EndTxnResponse
+    FetchRequest FilterResponse FindCoordinatorRequest FindCoordinatorResponse GroupDescription
+    GroupMemberDescription GroupProtocol HeartbeatRequest HeartbeatResponse IncrementalAlterConfigsEntry
+    IncrementalAlterConfigsRequest IncrementalAlterConfigsResource IncrementalAlterConfigsResponse
+    InitProducerIDRequest InitProducerIDResponse JoinGroupRequest JoinGroupResponse LeaveGroupRequest
+    LeaveGroupResponse ListGroupsRequest ListGroupsResponse ListPartitionReassignmentsRequest
+    ListPartitionReassignmentsResponse MatchingAcl MetadataRequest MetadataResponse OffsetCommitRequest
+    OffsetCommitResponse OffsetFetchRequest OffsetFetchResponse OffsetFetchResponseBlock OffsetRequest OffsetResponse
+    OffsetResponseBlock PartitionError PartitionMetadata PartitionOffsetMetadata PartitionReplicaReassignmentsStatus
+    ProduceResponse ProduceResponseBlock Record RecordHeader Resource ResourceAcls ResourceResponse
+    SaslAuthenticateRequest SaslAuthenticateResponse SaslHandshakeRequest SaslHandshakeResponse
+    StickyAssignorUserDataV0 StickyAssignorUserDataV1 SyncGroupRequest SyncGroupResponse Timestamp TopicDetail
+    TopicError TopicMetadata TopicPartition TopicPartitionError TxnOffsetCommitRequest TxnOffsetCommitResponse
+    alterPartitionReassignmentsErrorBlock fetchRequestBlock offsetCommitRequestBlock offsetRequestBlock
+""".split()
+_SKEL_SCHEMA = """
+    AddOffsetsToTxnRequest AddOffsetsToTxnResponse AddPartitionsToTxnRequest AddPartitionsToTxnResponse
+    AlterConfigsRequest AlterConfigsResponse AlterPartitionReassignmentsRequest AlterPartitionReassignmentsResponse
+    AlterUserScramCredentialsRequest AlterUserScramCredentialsResponse ApiVersionsRequest ApiVersionsResponse
+    ConsumerGroupMemberAssignment ConsumerGroupMemberMetadata ConsumerMetadataRequest ConsumerMetadataResponse
+    CreateAclsResponse CreatePartitionsRequest CreatePartitionsResponse CreateTopicsRequest CreateTopicsResponse
+    DeleteGroupsRequest DeleteGroupsResponse DeleteRecordsRequest DeleteRecordsResponse DeleteTopicsRequest
+    DeleteTopicsResponse DescribeConfigsRequest DescribeConfigsResponse DescribeGroupsRequest DescribeGroupsResponse
+    DescribeLogDirsRequest DescribeLogDirsResponse DescribeUserScramCredentialsRequest
+    DescribeUserScramCredentialsResponse EndTxnRequest EndTxnResponse FetchRequest FindCoordinatorRequest
+    FindCoordinatorResponse HeartbeatRequest HeartbeatResponse IncrementalAlterConfigsRequest
+    IncrementalAlterConfigsResponse InitProducerIDRequest InitProducerIDResponse JoinGroupRequest JoinGroupResponse
+    LeaveGroupRequest LeaveGroupResponse ListGroupsRequest ListGroupsResponse ListPartitionReassignmentsRequest
+    ListPartitionReassignmentsResponse MetadataRequest MetadataResponse OffsetCommitRequest OffsetCommitResponse
+    OffsetFetchRequest OffsetFetchResponse OffsetRequest OffsetResponse ProduceResponse Record
+    SaslAuthenticateRequest SaslAuthenticateResponse SaslHandshakeRequest SaslHandshakeResponse SyncGroupRequest
+    SyncGroupResponse TxnOffsetCommitRequest TxnOffsetCommitResponse
+""".split()
+_SKEL_STATED = """
+    ConsumerMetadataRequest_mirror_upto ConsumerMetadataRequest_mirror_beyond ConsumerMetadataResponse_mirror_upto
+    ConsumerMetadataResponse_mirror_beyond CreateAclsRequest_schema_upto CreateAclsRequest_schema_beyond
+    DeleteAclsRequest_schema_upto DeleteAclsRequest_schema_beyond DeleteAclsResponse_schema_upto
+    DeleteAclsResponse_schema_beyond DescribeAclsRequest_schema_upto DescribeAclsRequest_schema_beyond
+    DescribeAclsResponse_schema_upto DescribeAclsResponse_schema_beyond
+    alterPartitionReassignmentsBlock_mirror_differs
+""".split()
+CFG["required_theorems"] += [
+    "Props.C09skel.eval_stable", "Props.C09skel.normAt_stable", "Props.C09skel.mirror_all_versions",
+    "Props.C09skel.sub_sound", "Props.C09skel.mirror_sound", "Props.C09skel.skel_roundtrip_at",
+    "Props.C09skel.skel_roundtrip", "Props.C09skel.skel_roundtrip_upto", "Props.C09skel.skel_reencode"]
+CFG["required_theorems"] += ["Bridge.C09Skel.%s_mirror" % t for t in _SKEL_MIRROR]
+CFG["required_theorems"] += ["Bridge.C09Skel.%s_schema" % t for t in _SKEL_SCHEMA]
+CFG["required_theorems"] += ["Bridge.C09Skel." + t for t in _SKEL_STATED]
+CFG["assumptions"][2] = (
+    "protocol bodies are tied to the schema theorems twice: (dynamic) through the call sequence their real encode/decode make on "
+    "the packetEncoder/packetDecoder for generated values (recorded, interpreted by the model machines and, for 76 of 78 types, "
+    "parsed against a hand-written schema per type); (static) through skeletons re-extracted from the Go AST of every "
+    "encode/decode pair on every run (tools/skel, stdlib go/ast only, in the trusted base): the skeleton language abstracts "
+    "values away (which branch of a value-dependent alternative is taken, that a null count is only written for an empty "
+    "collection, that `make` is guarded), keeps version conditions, count statements, loops, push/pop and nested calls")
+CFG["trusted_base"] = list(CFG.get("trusted_base", [])) + [
+    "tools/skel (Go AST -> Lean skeleton data; statement forms outside its fragment become `unsupported`, never a guess); "
+    "cross-checked on every run against the hand-written schemas (schemaTie) which the harness validates against real bytes"]
+CFG["manifest"]["text"] += (
+    " Static tie (regenerated from /repo on every run): for 125 of the 135 types with an encode/decode pair (77 of the 79 wire "
+    "bodies incl. Record and the two consumer-group member types; all but ProduceRequest and FetchResponse, whose record sets stay "
+    "hand-modelled) the skeleton of both methods is extracted from the Go AST; Lean proves by kernel evaluation, per type, that at EVERY "
+    "version the decode skeleton reads field by field what the encode skeleton writes (T_mirror; a decoder may accept a null array the "
+    "encoder never writes) and that the encode skeleton has exactly the fields of the hand-written schema (T_schema, 77 types); generic "
+    "theorems (mirror_all_versions, mirror_sound, sub_sound) turn each T_mirror into: what the schema of T.encode writes for a "
+    "well-typed value, the schema of T.decode reads back as that value and exactly those bytes, and prep size = bytes written, at every "
+    "version (skel_roundtrip). Deviations of the pinned tree are stated and proved instead of hidden (tools/skel/known.txt: "
+    "ConsumerMetadataRequest/Response and five ACL bodies agree on their implemented versions only).")
+CFG["manifest"]["note"] = CFG["manifest"]["note"].replace(
+    "(hand-written schemas validated against recorded call sequences), not proved: there is no static skeleton extraction (the shared "
+    "translator takes loop-free integer code only).",
+    "(hand-written schemas validated against recorded call sequences) and, statically, tied by skeleton extraction (tools/skel, trusted) "
+    "for every type but ProduceRequest / FetchResponse and the record / message-set code; the skeleton abstracts field values, so "
+    "value-level facts (which struct field goes where, map iteration order, re-salting) remain observed only.")
